@@ -1,4 +1,6 @@
 import BoltonsVerif.C10.Backends
+import BoltonsVerif.C10.Prio
+import BoltonsVerif.C10.Heap
 import BoltonsVerif.C10.DriverCorrect
 /-
 C10 — property theorems (statements + short derivations from Proofs/Queue/Backends.lean)
@@ -104,6 +106,32 @@ theorem unfixed_insert_at_end_misplaces :
 
 end A
 
+/-! ## A'. heapq on a list -/
+section Aheap
+variable {α : Type}
+
+/-- `heappush` keeps the heap invariant and adds exactly the pushed item, for any comparison that is
+    a total preorder (Python's `<` on entries is one: `comparisons_never_reach_task`) -/
+theorem heapq_heappush (lt : α → α → Bool) (ho : HeapOrder lt) (x : α) (h : List α)
+    (hI : HeapInv lt h) :
+    HeapInv lt (heappush lt x h) ∧ (heappush lt x h).Perm (x :: h) := heappush_spec ho x h hI
+
+/-- `heappop` raises IndexError exactly on the empty list; otherwise it returns the root, which is a
+    least item, removes exactly that item and keeps the heap invariant (the fuel given to the two
+    sift loops suffices) -/
+theorem heapq_heappop [DecidableEq α] (lt : α → α → Bool) (ho : HeapOrder lt) (h : List α)
+    (hI : HeapInv lt h) :
+    (h = [] → heappop lt h = none) ∧
+    (h ≠ [] → ∃ e h', heappop lt h = some (e, h') ∧ h[0]? = some e ∧ (∀ x ∈ h, lt x e = false) ∧
+      HeapInv lt h' ∧ h'.Perm (h.erase e)) := by
+  constructor
+  · intro hnil; subst hnil; rfl
+  · intro hne
+    obtain ⟨e, h', h1, h2, h3, h4⟩ := heappop_spec ho h hI hne
+    exact ⟨e, h', h1, h2, heap_root_min ho h hI e h2, h3, h4⟩
+
+end Aheap
+
 /-! ## B. refinement -/
 section B
 variable {T : Type} [DecidableEq T]
@@ -133,6 +161,26 @@ theorem heap_refines_spec (ops : List (Op T)) :
     (PQ.run listHeap ops).2 = (Spec.run ops).2 :=
   (run_sim listHeap_lawful ops).2.2
 
+/-- `heapq` itself - `heappush` / `heappop` with their `_siftdown` / `_siftup` loops on a Python
+    list - satisfies the min-queue laws (wf = the heap invariant, content = the list) -/
+theorem heapq_lawful : Lawful (binHeap (T := T)) (HeapInv Entry.lt) id := binHeap_lawful
+
+/-- HeapPriorityQueue over the modelled `heapq`: every history returns what the specification returns -/
+theorem heapq_refines_spec (ops : List (Op T)) :
+    (PQ.run binHeap ops).2 = (Spec.run ops).2 :=
+  (run_sim binHeap_lawful ops).2.2
+
+/-- SortedPriorityQueue (BarrelList + insort) and HeapPriorityQueue (list + heapq) are observationally
+    identical, at any queue size, for any size-limit function - no trusted stand-in involved -/
+theorem heapq_sorted_observationally_equal (limit : Nat → Nat) (ops : List (Op T)) :
+    (PQ.run (sortedBackend limit) ops).2 = (PQ.run binHeap ops).2 := by
+  rw [sorted_refines_spec, heapq_refines_spec]
+
+/-- the heap backend of every reachable state satisfies the heap invariant -/
+theorem heapq_backend_always_heap (ops : List (Op T)) :
+    HeapInv Entry.lt (PQ.run binHeap ops).1.pq :=
+  (run_sim binHeap_lawful ops).1.wf
+
 /-- the two implementations are observationally identical, at any queue size -/
 theorem heap_sorted_observationally_equal (limit : Nat → Nat) (ops : List (Op T)) :
     (PQ.run (sortedBackend limit) ops).2 = (PQ.run listHeap ops).2 := by
@@ -154,9 +202,11 @@ theorem sorted_backend_always_sorted (limit : Nat → Nat) (ops : List (Op T)) :
     all theorems here are about), and therefore prints the specification's outputs -/
 theorem driver_runs_the_model (sf : Nat) (ops : List (Op Nat)) :
     Driver.runOuts (sortedBackend (curSizeLimit sf)) ops = (Spec.run ops).2 ∧
-    Driver.runOuts listHeap ops = (Spec.run ops).2 := by
-  rw [runOuts_eq, runOuts_eq]
-  exact ⟨(run_sim (sorted_lawful _) ops).2.2, (run_sim listHeap_lawful ops).2.2⟩
+    Driver.runOuts listHeap ops = (Spec.run ops).2 ∧
+    Driver.runOuts binHeap ops = (Spec.run ops).2 := by
+  rw [runOuts_eq, runOuts_eq, runOuts_eq]
+  exact ⟨(run_sim (sorted_lawful _) ops).2.2, (run_sim listHeap_lawful ops).2.2,
+    (run_sim binHeap_lawful ops).2.2⟩
 
 end B
 
@@ -364,6 +414,102 @@ theorem popped_never_returned {β : Type} {B : Backend T β} {wf : β → Prop}
 
 end C
 
+/-! ## D. priorities: the default key inside the model, and why only their order matters -/
+section D
+variable {T : Type} [DecidableEq T]
+
+/-- the return values of a history depend on its priorities only through their ORDER: two
+    interpretations `f g` of the priorities that order the history's priorities alike give the same
+    outputs, over any lawful backend.  (Sound basis of scaling, of ranks, and of any custom
+    `priority_key` that orders the priorities the same way.) -/
+theorem priorities_matter_only_by_order {P β : Type} {B : Backend T β} {wf : β → Prop}
+    {content : β → List (Entry T)} (L : Lawful B wf content) (f g : P → Int) (ops : List (ROp T P))
+    (h : ∀ a ∈ ROp.prios ops, ∀ b ∈ ROp.prios ops, (f a < f b ↔ g a < g b)) :
+    (PQ.run B (ops.map (ROp.toOp f))).2 = (PQ.run B (ops.map (ROp.toOp g))).2 := by
+  rw [(run_sim L _).2.2, (run_sim L _).2.2]
+  exact run_order_invariant f g ops h
+
+/-- scaling by a common power of two compares dyadic rationals (finite floats) EXACTLY -/
+theorem scale_exact (K : Nat) (a b : Dy) (ha : a.e ≤ K) (hb : b.e ≤ K) :
+    a.scale K < b.scale K ↔ Dy.lt a b := scale_lt_iff K a b ha hb
+
+/-- what the driver runs (`normalize`: every priority scaled by `2^maxExp`) orders the history's
+    priorities exactly as their real values do … -/
+theorem normalize_orders_exactly (ops : List (ROp T Dy)) :
+    ∀ a ∈ ROp.prios ops, ∀ b ∈ ROp.prios ops,
+      (a.scale (maxExp ops) < b.scale (maxExp ops) ↔ Dy.lt a b) :=
+  fun a ha b hb => scale_lt_iff _ a b (exp_le_maxExp ops a ha) (exp_le_maxExp ops b hb)
+
+/-- … hence ANY interpretation `g` that respects the real order (ranks, another scaling, a custom
+    key) yields the same return values as the driver's normalised history, on both backends -/
+theorem normalize_sound (limit : Nat → Nat) (g : Dy → Int) (ops : List (ROp T Dy))
+    (hg : ∀ a ∈ ROp.prios ops, ∀ b ∈ ROp.prios ops, (g a < g b ↔ Dy.lt a b)) :
+    (PQ.run (sortedBackend limit) (normalize ops)).2 = (Spec.run (ops.map (ROp.toOp g))).2 ∧
+    (PQ.run listHeap (normalize ops)).2 = (Spec.run (ops.map (ROp.toOp g))).2 := by
+  have key : (Spec.run (normalize ops)).2 = (Spec.run (ops.map (ROp.toOp g))).2 := by
+    unfold normalize
+    apply run_order_invariant
+    intro a ha b hb
+    rw [normalize_orders_exactly ops a ha b hb, hg a ha b hb]
+  exact ⟨by rw [(run_sim (sorted_lawful limit) _).2.2, key], by rw [(run_sim listHeap_lawful _).2.2, key]⟩
+
+/-- the default key `float(priority or 0)`: `None`, `False`, `0`, `0.0`/`-0.0` are one priority, and
+    `True`, `1`, `1.0` are one priority; ints up to 2^53 convert exactly -/
+theorem default_key_aliases :
+    PyPrio.none.eff = (PyPrio.int 0).eff ∧ (PyPrio.bool false).eff = (PyPrio.int 0).eff ∧
+    (∀ e, (PyPrio.float 0 e).eff = (PyPrio.int 0).eff) ∧
+    (PyPrio.bool true).eff = (PyPrio.int 1).eff ∧ (PyPrio.float 1 0).eff = (PyPrio.int 1).eff ∧
+    (∀ n : Nat, n < 2 ^ 53 → (PyPrio.int n).eff = ⟨n, 0⟩ ∧ (PyPrio.int (-(n : Int))).eff = ⟨-(n : Int), 0⟩) := by
+  refine ⟨by decide, by decide, fun e => by simp [PyPrio.eff, PyPrio.or0, PyPrio.truthy], by decide, by decide, ?_⟩
+  intro n hn
+  have h0 : roundNat53 n = n := by simp [roundNat53, hn]
+  have hor : ∀ z : Int, z ≠ 0 → (PyPrio.int z).or0 = PyPrio.int z := by
+    intro z hz; simp [PyPrio.or0, PyPrio.truthy, hz]
+  constructor
+  · by_cases hz : n = 0
+    · subst hz; decide
+    · have hne : (n : Int) ≠ 0 := by omega
+      have hneg : ¬ (n : Int) < 0 := by omega
+      show (PyPrio.int n).or0.toFloat = _
+      rw [hor _ hne]
+      simp [PyPrio.toFloat, roundInt53, hneg, h0]
+  · by_cases hz : n = 0
+    · subst hz; decide
+    · have hne : -(n : Int) ≠ 0 := by omega
+      have hneg : -(n : Int) < 0 := by omega
+      show (PyPrio.int (-(n : Int))).or0.toFloat = _
+      rw [hor _ hne]
+      simp [PyPrio.toFloat, roundInt53, h0]
+      intro h; exact absurd h hz
+
+/-- entries of a reachable queue state have pairwise distinct counters, all below the next counter
+    value, whatever the backend … -/
+theorem entry_counts_unique {β : Type} {B : Backend T β} {wf : β → Prop}
+    {content : β → List (Entry T)} (L : Lawful B wf content) (ops : List (Op T)) :
+    ((content (PQ.run B ops).1.pq).map Entry.count).Nodup ∧
+    ∀ e ∈ content (PQ.run B ops).1.pq, e.count < (PQ.run B ops).1.counter :=
+  ⟨(run_sim L ops).1.cnodup, (run_sim L ops).1.clt⟩
+
+/-- … so Python's comparison of `[priority, count, task]` lists is always decided by priority or
+    count and never reaches the task (no TypeError for unorderable tasks or the `_REMOVED` sentinel):
+    between two stored entries, and between the entry the next `add` creates and a stored one.
+    `Entry.lt`, which the model uses, is therefore exactly Python's `<` on reachable states. -/
+theorem comparisons_never_reach_task {β : Type} {B : Backend T β} {wf : β → Prop}
+    {content : β → List (Entry T)} (L : Lawful B wf content) (ops : List (Op T)) :
+    (∀ a ∈ content (PQ.run B ops).1.pq, ∀ b ∈ content (PQ.run B ops).1.pq, a ≠ b →
+      a.pyLt b = some (a.lt b)) ∧
+    (∀ (t : T) (p : Int), ∀ b ∈ content (PQ.run B ops).1.pq,
+      (⟨p, (PQ.run B ops).1.counter, some t⟩ : Entry T).pyLt b
+        = some ((⟨p, (PQ.run B ops).1.counter, some t⟩ : Entry T).lt b) ∧
+      b.pyLt ⟨p, (PQ.run B ops).1.counter, some t⟩ = some (b.lt ⟨p, (PQ.run B ops).1.counter, some t⟩)) := by
+  obtain ⟨hn, hlt⟩ := entry_counts_unique L ops
+  refine ⟨fun a ha b hb hab => pyLt_of_count_ne a b (count_ne_of_ne _ hn a b ha hb hab), ?_⟩
+  intro t p b hb
+  have := hlt b hb
+  exact ⟨pyLt_of_count_ne _ _ (by simp only; omega), pyLt_of_count_ne _ _ (by simp only; omega)⟩
+
+end D
+
 /-! ## non-vacuity: concrete histories (size limit 2 forces several sub-lists at once) -/
 section Examples
 
@@ -393,6 +539,36 @@ example : sortDesc [(1, 5), (2, 5), (3, 7), (4, 1), (5, 5)] = [((3 : Nat), (7 : 
 /-- hypotheses of `removed_never_returned` / `popped_never_returned` are satisfiable -/
 example : ∀ op ∈ ([.pop none, .add 7 1, .peek (some 1)] : List (Op Nat)), isAddOf 3 op = false := by decide
 example : nextOut (sortedBackend (fun _ => 2)) (exOps.take 8) (.pop none) = .task 3 := by decide
+
+/-- raw priorities: `add(1, None)`, `add(2, 0.5)`, `add(3, True)`, `add(4, 1)`, `add(5, 2**53 + 1)`,
+    `add(6, 2**53)`: the driver's normalised history (exponent 1) pops 5 before 6 (both are 2^53 as
+    floats, FIFO), then 3 before 4 (True = 1), then 2, then 1 -/
+def exRaw : List (ROp Nat Dy) :=
+  [.add 1 PyPrio.none.eff, .add 2 (PyPrio.float 1 1).eff, .add 3 (PyPrio.bool true).eff,
+   .add 4 (PyPrio.int 1).eff, .add 5 (PyPrio.int (2 ^ 53 + 1)).eff, .add 6 (PyPrio.int (2 ^ 53)).eff,
+   .pop none, .pop none, .pop none, .pop none, .pop none, .pop none]
+
+example : maxExp exRaw = 1 := by decide
+example : (PQ.run (sortedBackend (fun _ => 2)) (normalize exRaw)).2.drop 6 =
+    [.task 5, .task 6, .task 3, .task 4, .task 2, .task 1] := by decide +kernel
+/-- int → float rounds half to even at 53 bits -/
+example : roundInt53 (2 ^ 53 + 1) = 2 ^ 53 ∧ roundInt53 (2 ^ 53 + 3) = 2 ^ 53 + 4 ∧
+    roundInt53 (-(2 ^ 54 + 2)) = -(2 ^ 54) ∧ roundInt53 (2 ^ 54 + 6) = 2 ^ 54 + 8 ∧
+    roundInt53 (2 ^ 53 + 2) = 2 ^ 53 + 2 := by decide +kernel
+/-- hypotheses of `scale_exact` / `normalize_sound`: 1e-9-like small dyadics against an integer -/
+example : Dy.lt ⟨0, 0⟩ ⟨1, 30⟩ ∧ (⟨0, 0⟩ : Dy).scale 30 < (⟨1, 30⟩ : Dy).scale 30 := by decide
+/-- two distinct stored entries and the next entry, compared as Python does -/
+example : (⟨-5, 0, some 1⟩ : Entry Nat).pyLt ⟨-5, 1, some 2⟩ = some true ∧
+    (⟨-5, 0, some 1⟩ : Entry Nat).pyLt ⟨-5, 0, none⟩ = none := by decide
+
+/-- heapq: pushing 5 3 8 1 9 2 and popping twice; the hypotheses of `heapq_heappush` / `heapq_heappop` -/
+example : heappush (fun a b : Nat => decide (a < b)) 1 [3, 5, 8] = [1, 3, 8, 5] := by decide
+example : heappop (fun a b : Nat => decide (a < b)) [1, 3, 2, 5, 9, 8] = some (1, [2, 3, 8, 5, 9]) := by decide
+example : heappop (fun a b : Nat => decide (a < b)) ([] : List Nat) = none := by decide
+example : HeapOrder (fun a b : Nat => decide (a < b)) :=
+  ⟨fun a b h => by simp at h ⊢; omega, fun a b c h1 h2 => by simp at h1 h2 ⊢; omega⟩
+example : (PQ.run binHeap exOps).2 = (PQ.run (sortedBackend (fun _ => 2)) exOps).2 := by decide
+example : (PQ.run binHeap (exOps.take 6)).1.pq.length = 6 := by decide
 
 end Examples
 
